@@ -75,3 +75,24 @@ Check C04_marker_halving_exact : forall n,
   Nat.iter n (fun x => ienc_bit x 1024 true) e = Nat.iter n (fun x => ienc_direct x true) e /\
   exists i, Phase i (i_range (Nat.iter n (fun x => ienc_direct x true) e)).
 Print Assumptions C04_marker_halving_exact.
+
+(* ---------- the composition through lzma_compress (proofs in Proofs/DumbEncConform.v) ---------- *)
+From LZ Require Import Proofs.DumbEncConform.
+
+(* for every byte string, every fragmentation of the input reader, every non-failing sink (any bytes-per-write) and each
+   of the three options: lzma_compress succeeds and what the sink receives is header ++ the reference encoding of the
+   literal program (with the end marker for WriteToHeader(None)) - empty input included *)
+Theorem C04_lzma_compress_conformant : forall (fuel : positive) (o : enc_unpacked) (data : list N) (frag : N -> N) (k : snk),
+  EncCarry.bytes data -> k_wfail k = None -> nlen data < N.pos fuel -> 9 * nlen data + 50 < 4294967296 ->
+  exists (w' : io) (payload : list N),
+    lzma_compress fuel o {| i_src := src_of data frag None; i_snk := k |} = (Done tt, w') /\
+    snk_bytes (i_snk w') = snk_bytes k ++ header o ++ payload /\
+    enc_payload_gen false {| f_lc := 3; f_lp := 0; f_pb := 2 |} (Some 8388608) (lit_program o data) 0 = Some (payload, data).
+Proof. exact lzma_compress_conforms. Qed.
+Check C04_lzma_compress_conformant : forall (fuel : positive) (o : enc_unpacked) (data : list N) (frag : N -> N) (k : snk),
+  EncCarry.bytes data -> k_wfail k = None -> nlen data < N.pos fuel -> 9 * nlen data + 50 < 4294967296 ->
+  exists (w' : io) (payload : list N),
+    lzma_compress fuel o {| i_src := src_of data frag None; i_snk := k |} = (Done tt, w') /\
+    snk_bytes (i_snk w') = snk_bytes k ++ header o ++ payload /\
+    enc_payload_gen false {| f_lc := 3; f_lp := 0; f_pb := 2 |} (Some 8388608) (lit_program o data) 0 = Some (payload, data).
+Print Assumptions C04_lzma_compress_conformant.
